@@ -46,6 +46,24 @@ CHECKS = {
     design_ref="DESIGN.md section 4 / C08",
     technique="Coq proof of structural invariants of the compile model (frame lemmas over the linearizer monad) + per-run correspondence + output predicates on the implementation",
     note=TB),
+ "C13": dict(
+    category="proof",
+    text="PARTIAL proof. Proved in Coq: EqualityConstraint::new keeps the equation and yields b >= 0; slack/surplus, free-variable split and objective flip lemmas. "
+         "Not proved: the end-to-end transfer theorem over the positional column bookkeeping. Tie: to_standard_form is modelled completely and compared for exact equality "
+         "(variables, objective, flip, offset, every row) with LinearModel::into_standard_form through a guarded accessor on every run; forward transfer and objective preservation "
+         "are evaluated on the implementation over a grid of original points.",
+    design_ref="DESIGN.md section 4 / C13",
+    technique="Coq proof (partial, row-level) + exact structural correspondence of the whole standard form + grid transfer oracle on the implementation",
+    note=TB + " Genuine defect F9 (tolerant sign test left a tiny negative rhs) was repaired in /repo (fix: commit)."),
+ "C14": dict(
+    category="proof",
+    text="Proved in Coq for all finite rectangular tableaux, all pivots on a non-zero element and all real vectors: the equation system keeps exactly the same solutions, "
+         "the objective row stays consistent, both lifted to every prefix of every pivot sequence; the ratio test keeps the basic solution non-negative; the objective never gets worse; "
+         "at stop no non-negative solution beats the basic one. Not proved: termination/anti-cycling, canonicity of basis columns, unbounded genuineness (checked on every implementation tableau). "
+         "Tie: every observed pivot (entering, leaving, post-state) is replayed in the model from the implementation's own pre-state; start tableaux compared exactly.",
+    design_ref="DESIGN.md section 4 / C14",
+    technique="Coq proof of step invariants + induction over pivot sequences + per-step correspondence of histories + invariant/optimality/ray oracles on the implementation",
+    note=TB),
  "C10": dict(
     category="proof",
     text="Coq theorems for all expressions and all real assignments: Exp::simplify (typed semantics) and Exp::flatten preserve the value; "
